@@ -189,14 +189,20 @@ CHECKS.update({
 CHECKS.update({
     "C09": dict(
         engine="hx_mem", category="exploration", design_ref="DESIGN.md section 4 C09",
-        technique="runtime monitoring: allocation monitor (peak requested bytes through lzma_allocator) against memory limits and lzma_*_memusage() estimates; MEMLIMIT_ERROR -> lzma_memusage -> lzma_memlimit_set -> resume loop compared with the unlimited run",
+        technique="runtime monitoring: allocation monitor (peak requested bytes through lzma_allocator) against memory limits and lzma_*_memusage() estimates; MEMLIMIT_ERROR -> lzma_memusage -> lzma_memlimit_set -> resume loop compared with the unlimited run; LD_PRELOAD heap monitor (preload/libxzmem.c) on the real xz with --memlimit-* options",
         text="Files declaring dictionaries from 4 KiB to 64 MiB (thorough 1.5 GiB) are decoded by the stream, threaded, auto, "
              "file-info, .lzma and .lz decoders under limits swept around the measured need; the peak of bytes requested from "
              "the allocator must stay under limit + a fixed allowance, a MEMLIMIT_ERROR must report the needed amount and the "
              "decode must finish identically after raising the limit to it; the threaded decoder must respect "
-             "memlimit_threading whenever one thread fits. Encoder/decoder estimates are compared with measured peaks.",
+             "memlimit_threading whenever one thread fits. Encoder/decoder estimates are compared with measured peaks. CLI part: "
+             "the rel-build xz runs under a heap-counting preload with --memlimit-compress/-decompress/-mt-decompress/-M limits "
+             "around its measured unlimited peak (presets, custom chains, -T1..8/0/+N, block sizes, xz/lzma/raw, --no-adjust; "
+             "declared dictionaries to 1.5 GiB; --list of many-Block files): exit 0 needs peak <= limit + 128 KiB and a "
+             "round-tripping result, exit 1 needs the memory-limit message, xz's own 'N MiB is required' followed until it "
+             "succeeds.",
         note="Counts requested bytes only (no malloc overhead, no thread stacks); allowance 32 KiB + 1 KiB per thread (largest "
-             "measured excess is in the evidence); configurations sampled; the xz tool's memlimit options are thorough-tier."),
+             "measured excess is in the evidence); configurations sampled; CLI heap = malloc_usable_size sums (stacks, static buffers "
+             "and mmap outside malloc not counted), allowance 128 KiB."),
     "C10": dict(
         engine="hx_mem", category="fault_enumeration", design_ref="DESIGN.md section 4 C10",
         technique="runtime monitoring: fault-injecting lzma_allocator with live-block table; every k-th allocation failure (single and from-k) enumerated per API scenario plus random subsets; handle-reuse histories; ASan",
